@@ -465,22 +465,27 @@ theorem resolve_default (n : Nat) :
     resolve n .dflt = some (true :: List.replicate n false) :=
   ⟨rfl, maskOfString_nn_params n⟩
 
-/-- the meaning of a specification, position by position (this is `Holds.specSelects`) -/
+/-- the model's specification in the vocabulary of `Holds.C06` -/
+def toHolds : Spec → Jinns.Holds.Spec06
+  | .dflt => .dflt
+  | .str s => .str s
+  | .tree t => .tree t
+
+/-- the meaning of a specification, position by position, is `Holds.specSelects`: the mask the
+    code builds selects position `i` exactly when the property statement says so -/
 theorem resolve_selects (n : Nat) (sp : Spec) (m : Mask) (h : resolve n sp = some m) (i : Nat)
     (hi : i ≤ n) :
-    m.getD i false =
-      Jinns.Holds.specSelects
-        (match sp with | .dflt => .dflt | .str s => .str s | .tree t => .tree t) i := by
+    m.getD i false = Jinns.Holds.specSelects (toHolds sp) i := by
   cases sp with
   | tree t => simp only [resolve, Option.some.injEq] at h; subst h; rfl
   | dflt =>
     rw [(resolve_default n).2] at h
     simp only [Option.some.injEq] at h; subst h
     cases i with
-    | zero => simp [Jinns.Holds.specSelects]
+    | zero => simp [Jinns.Holds.specSelects, toHolds]
     | succ i =>
       have : i < n := by omega
-      simp [Jinns.Holds.specSelects, List.getD_eq_getElem?_getD, this]
+      simp [Jinns.Holds.specSelects, toHolds, List.getD_eq_getElem?_getD, this]
   | str s =>
     simp only [resolve] at h
     by_cases h1 : s = "both"
@@ -488,28 +493,28 @@ theorem resolve_selects (n : Nat) (sp : Spec) (m : Mask) (h : resolve n sp = som
       rw [maskOfString_both] at h
       simp only [Option.some.injEq] at h; subst h
       cases i with
-      | zero => simp [Jinns.Holds.specSelects]
+      | zero => simp [Jinns.Holds.specSelects, toHolds]
       | succ i =>
         have : i < n := by omega
-        simp [Jinns.Holds.specSelects, List.getD_eq_getElem?_getD, this]
+        simp [Jinns.Holds.specSelects, toHolds, List.getD_eq_getElem?_getD, this]
     · by_cases h2 : s = "eq_params"
       · subst h2
         rw [maskOfString_eq_params] at h
         simp only [Option.some.injEq] at h; subst h
         cases i with
-        | zero => simp [Jinns.Holds.specSelects]
+        | zero => simp [Jinns.Holds.specSelects, toHolds]
         | succ i =>
           have : i < n := by omega
-          simp [Jinns.Holds.specSelects, List.getD_eq_getElem?_getD, this]
+          simp [Jinns.Holds.specSelects, toHolds, List.getD_eq_getElem?_getD, this]
       · by_cases h3 : s = "nn_params"
         · subst h3
           rw [maskOfString_nn_params] at h
           simp only [Option.some.injEq] at h; subst h
           cases i with
-          | zero => simp [Jinns.Holds.specSelects]
+          | zero => simp [Jinns.Holds.specSelects, toHolds]
           | succ i =>
             have : i < n := by omega
-            simp [Jinns.Holds.specSelects, List.getD_eq_getElem?_getD, this]
+            simp [Jinns.Holds.specSelects, toHolds, List.getD_eq_getElem?_getD, this]
         · rw [maskOfString_unknown n s h1 h2 h3] at h; simp at h
 
 theorem allSome_map_some (l : List α) : allSome (l.map some) = some l := by
@@ -607,6 +612,55 @@ theorem liftMask_dict_nn (U : Nat) (rest : List (Option Nat)) (m : Mask) (u : Na
   rw [liftMask_getD, List.getD_eq_getElem?_getD, List.getElem?_append_left (by simpa using hu)]
   simp [hu]
 
+/-- the lifted mask of a term selects gradient group `g` exactly when `Holds.selects` says so -/
+theorem lifted_selects (n : Nat) (sp : Spec) (m : Mask) (gmap : List (Option Nat))
+    (h : resolve n sp = some m) (g : Nat) (hg : ∀ i, gmap.getD g none = some i → i ≤ n) :
+    (liftMask gmap m).getD g false = Jinns.Holds.selects gmap (toHolds sp) g := by
+  rw [liftMask_getD]
+  unfold Jinns.Holds.selects
+  cases hgm : gmap.getD g none with
+  | none => rfl
+  | some i => exact resolve_selects n sp m h i (hg i hgm)
+
+/-- a loss term as a user specifies it: the specification of its derivative keys, the number of
+    equation parameters of its parameter view, the view's place among the gradient groups, and
+    the term itself; `mask` is what the constructors made of the specification -/
+structure SpecTerm where
+  spec : Spec
+  nEq  : Nat
+  gmap : List (Option Nat)
+  term : LossTerm
+  mask : Mask
+
+def SpecTerm.WF (x : SpecTerm) : Prop :=
+  resolve x.nEq x.spec = some x.mask ∧ ∀ g i, x.gmap.getD g none = some i → i ≤ x.nEq
+
+/-- the loss the code evaluates for these terms -/
+def famOfSpecs (L : List SpecTerm) : Family := L.map (fun x => (liftMask x.gmap x.mask, x.term))
+
+/-- **C06 in the vocabulary of the property statement**: whatever way every term's derivative keys
+    are specified (default, string, boolean tree; single loss or system), the differential of the
+    total loss in gradient group `g` is the sum of the differentials of exactly the terms whose
+    *specification* selects `g` (`Holds.selects`). -/
+theorem totalJvp_routes_by_specification (L : List SpecTerm) (hL : ∀ x ∈ L, x.WF) (g : Nat) (v : Vec) :
+    totalJvp (evalTerms (famOfSpecs L)) (basis g v) =
+      totalJvp ((L.filter (fun x => Jinns.Holds.selects x.gmap (toHolds x.spec) g)).map (·.term))
+        (basis g v) := by
+  rw [totalJvp_routes]
+  congr 1
+  unfold selecting famOfSpecs
+  rw [List.filter_map, List.map_map]
+  have : L.filter ((fun mt : Mask × LossTerm => mt.1.getD g false) ∘
+        fun x : SpecTerm => (liftMask x.gmap x.mask, x.term))
+      = L.filter (fun x => Jinns.Holds.selects x.gmap (toHolds x.spec) g) := by
+    apply List.filter_congr
+    intro x hx
+    have hw := hL x hx
+    simp only [Function.comp]
+    exact lifted_selects x.nEq x.spec x.mask x.gmap hw.1 g (fun i hi => hw.2 g i hi)
+  rw [this]
+  rfl
+
 /-! ### non-vacuity -/
 
 /-- a two-group, three-term family with every (term, group) differential non-zero -/
@@ -647,5 +701,16 @@ example : setDerivD [true, false] [[1, 2], [3]] = [[1, 2], [0]] := by
   simp [setDerivD, zeroVec]
 example : liftMask [some 0, some 0, some 1] [false, true] = [false, false, true] := by decide
 example : liftMask [none, some 0, some 1] [true, true] = [false, true, true] := by decide
+example : (SpecTerm.mk (.str "eq_params") 2 [some 0, none, some 1, some 2] { val := 1, diff := [[1], [2], [3], [4]] }
+    [false, true, true]).WF := by
+  refine ⟨by decide, ?_⟩
+  intro g i h
+  show i ≤ 2
+  match g with
+  | 0 => simp at h; omega
+  | 1 => simp at h
+  | 2 => simp at h; omega
+  | 3 => simp at h; omega
+  | (k + 4) => simp at h
 
 end Jinns.DerivKeys
